@@ -16,6 +16,8 @@ def run(run, model):
     run.do(marker.finally_clean, model)
     run.do(effects.handlers_rule, model)
     run.do(effects.lazy_user_code, model)
+    # the error of *this* violation surfaces: nothing a previous call left on a long-lived object decides for it
+    run.do(effects.no_other_state, model, "C11.no-history")
     for role, ck in gates.checkers(model).items():
         for kind in ("PRE", "POST"):
             if not ck.by_kind.get(kind):
